@@ -18,7 +18,8 @@ def check(model, R, tier):
     R.analysed['ops'] = [o.name for o in ops]
     R.analysed['backward_kernels'] = sorted({d for o in ops for d, _, _ in o.bwd_calls})
     T.check_ops(model, R, ops, 'C01')
-    T.check_cover(model, R, ops, 'C01')
+    from sa.rules_flags import check_flags
+    check_flags(model, R, 'C01', 'synapgrad.functional', rules=('COVER',))
     K.check_glin(model, R, ops, 'C01')
     K.check_perm(model, R, ops, 'C01')
     K.check_unbroadcast(model, R, ops, 'C01')
